@@ -494,13 +494,92 @@ func Forall(vars []*Term, body *Term) *Term {
 	if body.IsTrue() || body.IsFalse() {
 		return body
 	}
+	vars, body = normalizeQuant(vars, body)
 	return mk("forall", "", nil, SBool, vars, body)
 }
 func Exists(vars []*Term, body *Term) *Term {
 	if body.IsTrue() || body.IsFalse() {
 		return body
 	}
+	vars, body = normalizeQuant(vars, body)
 	return mk("exists", "", nil, SBool, vars, body)
+}
+
+func occurs(t, v *Term) bool {
+	seen := map[int]bool{}
+	var rec func(t *Term) bool
+	rec = func(t *Term) bool {
+		if t == v {
+			return true
+		}
+		if seen[t.id] {
+			return false
+		}
+		seen[t.id] = true
+		for _, a := range t.Args {
+			if rec(a) {
+				return true
+			}
+		}
+		return false
+	}
+	return rec(t)
+}
+
+// normalizeQuant re-parameterises bound variables that occur as (+ T k) (slice offset + index) so that array reads are
+// indexed by a plain bound variable: k := m - T. This keeps arithmetic out of E-matching patterns.
+func normalizeQuant(vars []*Term, body *Term) ([]*Term, *Term) {
+	vars = append([]*Term(nil), vars...)
+	for vi, k := range vars {
+		if k.S != SInt {
+			continue
+		}
+		count := map[int]int{}
+		terms := map[int]*Term{}
+		bare := 0
+		seen := map[int]bool{}
+		var rec func(t *Term, inIndex bool)
+		rec = func(t *Term, inIndex bool) {
+			if t == k && inIndex {
+				bare++
+			}
+			if seen[t.id] {
+				return
+			}
+			seen[t.id] = true
+			if t.Op == "+" && len(t.Args) == 2 {
+				var other *Term
+				if t.Args[0] == k {
+					other = t.Args[1]
+				} else if t.Args[1] == k {
+					other = t.Args[0]
+				}
+				if other != nil && !other.IsConst() && !occurs(other, k) {
+					count[t.id]++
+					terms[t.id] = t
+				}
+			}
+			for i, a := range t.Args {
+				rec(a, (t.Op == "select" && i == 1) || (t.Op == "app"))
+			}
+		}
+		rec(body, false)
+		if len(count) != 1 || bare > 0 {
+			continue
+		}
+		var plus *Term
+		for id := range count {
+			plus = terms[id]
+		}
+		other := plus.Args[0]
+		if other == k {
+			other = plus.Args[1]
+		}
+		m := BoundVar(strings.SplitN(k.Name, "!", 2)[0]+"_s", SInt)
+		body = Subst(body, map[int]*Term{plus.id: m, k.id: Sub(m, other)})
+		vars[vi] = m
+	}
+	return vars, body
 }
 
 func smtNum(v *big.Int) string {
